@@ -101,3 +101,23 @@ Example C06_example :
   | Raise _ => False
   end.
 Proof. vm_compute. repeat split; reflexivity. Qed.
+
+(* ---- the model's comparisons are the ones the source writes now (Gen/Sites.v is regenerated from /repo on every run) ---- *)
+From ZC Require Import Gen.Sites Proofs.Sites_C06.
+Theorem C06_site_ptr_floor : forall r,
+  apply_ptr_floor r =
+  if negb (p_ttl r =? 0) && (p_type_ r =? C_TYPE_PTR) && sop_apply site_ingest_ptr_min_ttl (p_ttl r) C_DNS_PTR_MIN_TTL
+  then set_lifetime r (p_created r) C_DNS_PTR_MIN_TTL else r.
+Proof. exact tie_ptr_floor. Qed.
+Theorem C06_site_flush_age : forall now answers c name ty cl,
+  mark_one now answers c (name, ty, cl) =
+  fold_left (fun c r =>
+               if sop_apply site_cache_flush_age (now - DNSRecord_created r) site_cache_flush_age_rhs
+                  && negb (existsb (fun a => gen_eq a r) answers)
+               then cache_set_lifetime c r now 1 else c)
+            (async_all_by_details c name ty cl) c.
+Proof. exact tie_mark_one. Qed.
+Theorem C06_site_counts : sites_C06_counts. Proof. exact sites_C06_counts_ok. Qed.
+Print Assumptions C06_site_ptr_floor.
+Print Assumptions C06_site_flush_age.
+Print Assumptions C06_site_counts.
